@@ -84,7 +84,7 @@ def skipVerdict (impl : String) (t : UInt8) (b : Bytes) (src : SrcKind) (res : S
     | _ => true
   let toks := res.splitOn " "
   match toks with
-  | "PANIC" :: _ => "bad:C03:panic"
+  | "PANIC" :: _ => if r64.isSome then "bad:C03:panic,C02:rejected-valid" else "bad:C03:panic,C08:panic"
   | "OOB" :: _ => "bad:C03:oob"
   | "ok" :: rest =>
     -- decode (n, returned bytes?, consumed?) per impl
@@ -108,7 +108,7 @@ def skipVerdict (impl : String) (t : UInt8) (b : Bytes) (src : SrcKind) (res : S
     match parsed with
     | none => "bad:protocol"
     | some (n, bytes?, consumed?) =>
-      if n > b.length then "bad:C03:overreport"
+      if n > b.length then "bad:C03:overreport,C08:extent"
       else if r65 != some n then
         (if (refLenAny t b).isNone then "bad:C08:accepted-malformed" else "bad:C08:extent")
       else if (match bytes? with | some bs => bs != b.take n | none => false) then "bad:C02:bytes"
